@@ -103,10 +103,27 @@ def check(run):
         for kind, thr in (("zero", 0.0), ("below-one-distance", dsel * (1 - 2.0 ** -30)), ("above-one-distance", dsel * (1 + 2.0 ** -30)),
                           ("beyond-all", float(d.max()) * 1.5), ("integer", 2)):
             one_case(run, specs, gamma, pts, npos, Z, thr, t, kind)
-        if k % 4 == 0:
-            pts2 = np.vstack([pts, npos[:1]])
+        if k % 2 == 0:
+            pts2 = np.vstack([pts, npos])          # a point exactly on every nucleus
             one_case(run, specs, gamma, pts2, npos, Z, 0.0, t, "point-on-nucleus-unmasked")
             one_case(run, specs, gamma, pts2, npos, Z, 0.5, t, "point-on-nucleus-masked")
+            # points very close to nuclei (the nuclear term must be Z/d to rounding there as well)
+            near = []
+            for a in range(len(npos)):
+                u = np.array([rng.gauss(0, 1) for _ in range(3)])
+                near.append(npos[a] + u / np.linalg.norm(u) * 10.0 ** -rng.randint(2, 5))
+            near = np.array(near)
+            dn = np.sqrt(((near[:, None, :] - npos[None, :, :]) ** 2).sum(axis=2))
+            d0 = float(dn[0, 0])
+            one_case(run, specs, gamma, near, npos, Z, 0.0, t, "points-near-nuclei")
+            one_case(run, specs, gamma, near, npos, Z, d0 * (1 - 2.0 ** -30), t, "near-below-distance")
+            one_case(run, specs, gamma, near, npos, Z, d0 * (1 + 2.0 ** -30), t, "near-above-distance")
+        if k % 4 == 1:
+            # the same kind of system far from the coordinate origin
+            sh = np.array([40.0, -25.0, 60.0])
+            specs_far = [s_.copy(center=list(np.array(s_.center) + sh)) for s_ in specs]
+            one_case(run, specs_far, gamma, np.vstack([pts, npos[:1]]) + sh, npos + sh, Z, 0.0, t, "far-from-origin")
+            one_case(run, specs_far, gamma, pts + sh, npos + sh, Z, dsel * (1 + 2.0 ** -30), t, "far-from-origin-threshold")
         size_case(run, specs, t)
     # the witnesses of the repaired defects
     s = ShellSpec(0, [0, 0, 0], [1.0], [1.0])
